@@ -5,7 +5,7 @@
    Proofs/ResP*.v and Proofs/WorkerP.v (conservation for every key predicate, refusal, non-negativity). *)
 From Coq Require Import ZArith Bool List Lia ZifyBool.
 Import ListNotations.
-From Verif Require Import Model.Val Model.Res Model.Worker Proofs.ResP Proofs.ResP2 Proofs.WorkerP.
+From Verif Require Import Model.Val Model.Res Model.Worker Proofs.ResP Proofs.ResP2 Proofs.WorkerP Proofs.ResP4.
 From Verif Require Import Gen.Src_Greedy Model.Greedy Proofs.GreedyP Proofs.GreedyP2 Proofs.GreedyP3.
 Open Scope Z_scope.
 
@@ -19,7 +19,9 @@ Definition no_empty (a : allocs) : Prop := forall c, al_find c a <> Some [].
 Definition r_wok (R : res) : Prop :=
   Res_ok R /\ Nonneg R /\ no_empty (r_allocs R) /\ NoDup (map fst (r_total R)) /\ nonneg_vec (r_total R).
 Definition w_wok (w : worker) : Prop := r_wok (w_res w).
-Definition w_sok (s : strategy) : Prop := s_is_batch s = false /\ nonneg_vec (s_req s).
+(* plain strategies, non-negative quantities, each resource name requested once (the keys may be `any` or specific) *)
+Definition w_sok (s : strategy) : Prop :=
+  s_is_batch s = false /\ nonneg_vec (s_req s) /\ NoDup (req_names (s_req s)).
 
 Lemma sumP_nonneg P v : nonneg_vec v -> 0 <= sumP P v.
 Proof.
@@ -81,13 +83,13 @@ Proof.
 Qed.
 Lemma w_wplace_le w t s : w_wok w -> w_sok s -> can WL w s = true -> w_wle w (wplace WL w t s).
 Proof.
-  intros Hok [Hb Hq] _. unfold w_wle. cbn [wplace WL]. rewrite (w_place_plain t s w Hb).
+  intros Hok [Hb [Hq _]] _. unfold w_wle. cbn [wplace WL]. rewrite (w_place_plain t s w Hb).
   destruct (r_allocate_multiple (w_res w) (s_req s) (CTask t)) as [R o] eqn:E. cbn [fst].
   exact (proj1 (am_le _ _ _ _ _ Hok Hq E)).
 Qed.
 Lemma w_wplace_ok w t s : w_wok w -> w_sok s -> can WL w s = true -> w_wok (wplace WL w t s).
 Proof.
-  intros Hok [Hb Hq] _. unfold w_wok. cbn [wplace WL]. rewrite (w_place_plain t s w Hb).
+  intros Hok [Hb [Hq _]] _. unfold w_wok. cbn [wplace WL]. rewrite (w_place_plain t s w Hb).
   destruct (r_allocate_multiple (w_res w) (s_req s) (CTask t)) as [R o] eqn:E. cbn [fst].
   exact (proj2 (am_le _ _ _ _ _ Hok Hq E)).
 Qed.
@@ -97,11 +99,20 @@ Proof.
   split; [split; [apply inv_new|apply dict_new; exact HD]|].
   split; [apply nonneg_new; exact HT|]. split; [intros c; cbn; discriminate|]. cbn [r_total r_new]. auto.
 Qed.
-Lemma w_can_antitone w w' s : w_sok s -> w_wle w w' -> can WL w' s = true -> can WL w s = true.
+Lemma w_can_antitone w w' s : w_wok w -> w_wok w' -> w_sok s -> w_wle w w' -> can WL w' s = true -> can WL w s = true.
 Proof.
-  intros [Hb _] Hle. cbn [can WL]. unfold w_fits. rewrite Hb. cbn [andb]. rewrite !orb_false_r.
-  unfold r_gt. rewrite !forallb_forall. intros H rq Hrq. specialize (H rq Hrq).
+  intros (_ & HN & _) (_ & HN' & _) [Hb [Hq ND]] Hle. cbn [can WL]. unfold w_fits. rewrite Hb. cbn [andb]. rewrite !orb_false_r.
+  intros H. apply (r_gt_per_key_iff _ _ ND Hq HN). apply (r_gt_per_key_iff _ _ ND Hq HN') in H.
+  unfold r_gt_per_key in *. rewrite forallb_forall in *. intros rq Hrq. specialize (H rq Hrq).
   unfold r_available, vec_quantity in *. specialize (Hle (fun k => res_match k (fst rq))). lia.
+Qed.
+
+(* under the fit test Worker.place_task never raises: the total `wplace` of the ledger interface is the state after
+   a successful placement, as in the scheduler's loop (place_task is only called after can_accomodate_strategy) *)
+Lemma w_place_succeeds t s w : w_wok w -> w_sok s -> can WL w s = true -> snd (w_place t s w) = Ok tt.
+Proof.
+  intros (_ & HN & _) [Hb [Hq _]] Hc. cbn [can WL] in Hc. unfold w_fits in Hc. rewrite Hb in Hc. cbn [andb] in Hc.
+  rewrite orb_false_r in Hc. apply w_fit_place_succeeds; [exact HN|exact Hq|exact Hc|]. intros X. congruence.
 Qed.
 
 Theorem WL_laws : ledger_laws WL w_wle w_wok w_sok.
@@ -131,7 +142,7 @@ Proof.
   - constructor; [|constructor]. cbn [snd]. constructor; [|constructor]. apply w_new_ok.
     + cbn [map fst]. constructor; [cbn; intros [X|[]]; discriminate|]. constructor; [intros []|constructor].
     + constructor; [cbn; lia|]. constructor; [cbn; lia|constructor].
-  - repeat constructor; cbn; lia.
+  - repeat constructor; cbn; try lia; intros [].
 Qed.
 
 (* ---------- the policy model over the shared worker model, run on the S-greedy inputs: a simple-ledger input is
@@ -149,3 +160,17 @@ Definition g_observe_wl (i : ginput) : val :=
   vres (vlist vdec)
        (schedule WL (policy_of_code (gi_policy i)) (gi_enforce i) (gi_preemptive i) (gi_now i)
                  (map wl_pool (gi_cluster i)) (map wl_task (gi_offered i))).
+
+(* ---------- inputs rendered directly for the shared worker model (requests may name specific resource ids):
+   stream S-greedy-ids *)
+Record winput := mkWI {
+  wi_policy : Z; wi_enforce : bool; wi_preemptive : bool; wi_now : Z;
+  wi_cluster : cluster WL; wi_offered : list (task WL) }.
+Definition wtask (i : Z) (a : tattrs) (ss : list strategy) : task WL := @mkTask WL i a ss.
+Definition wworker (av tot : rvec) : worker := mkWorker 0 (mkRes av tot []) [] [] [] [] [] 0.
+Definition vwcluster (c : cluster WL) : val :=
+  vlist (fun p => L [I (fst p); vlist (fun w => vlist (fun kq => L [I (fst (fst kq)); I (snd kq)]) (r_avail (w_res w))) (snd p)]) c.
+Definition w_observe_both (i : winput) : val :=
+  let r := schedule_full WL (policy_of_code (wi_policy i)) (wi_enforce i) (wi_preemptive i) (wi_now i)
+                         (wi_cluster i) (wi_offered i) in
+  L [vres (vlist vdec) (bind r (fun o => Ok (fst o))); vres vwcluster (bind r (fun o => Ok (snd o)))].
